@@ -630,6 +630,12 @@ func mergeGroupFiles(groups []Group, pkg string) Group {
 				g.Files = append(g.Files, f)
 			}
 		}
+		for _, a := range x.Aux {
+			if !seen[a.Pkg+":"+a.File] {
+				seen[a.Pkg+":"+a.File] = true
+				g.Aux = append(g.Aux, a)
+			}
+		}
 	}
 	return g
 }
